@@ -592,10 +592,21 @@ def gen_atad_case(rng, i):
     pert = gen_vec(rng, cols, cplx, den=2, lo=-1, hi=1)
     return {"complex": cplx, "shape": shape, "D_kind": dkind, "rhs": rhs, "rows": rows, "cols": cols, "A": enc(A),
             "D": enc(D), "W": None if W is None else enc(W), "b": enc(b), "pert": enc(pert),
-            # constructor flags: Cholesky in two thirds of the cases, lower / upper triangle and check_finite both
-            # ways, in patterns whose periods (3, 4, 5) are coprime to those of the attributes above
-            "cho": i % 3 != 2, "lower": [False, True, True, False][i % 4], "check_finite": i % 5 != 0,
+            # constructor flags: every (shape, D, rhs) combination occurs twice per 24 cases (real / complex); one of the
+            # two uses cho_factor=True with lower=True, the other alternates cho_factor=True/lower=False and LU;
+            # the roles rotate with the cycle i // 24; check_finite both ways
+            **atad_flags(i),
             "D_obj": rng.choice(["array", "operator"])}
+
+
+def atad_flags(i):
+    if (i % 2 + i // 2 + i // 24) % 2 == 0:
+        cho, lower = True, True
+    elif (i // 4 + i // 24) % 2 == 0:
+        cho, lower = True, False
+    else:
+        cho, lower = False, bool(i % 3 == 0)      # lower is ignored by the LU branch
+    return {"cho": cho, "lower": lower, "check_finite": i % 5 != 0}
 
 
 def atad_oracle(c):
